@@ -48,11 +48,12 @@ type lockCallSite struct {
 }
 
 type lockAnalysis struct {
-	r       *Run
-	pkg     *packages.Package
-	owner   *types.Named
-	mutexes map[*types.Var]bool
-	guarded map[*types.Var]bool
+	litEntry map[*ast.FuncLit]int // entry level of literals handed to locking helpers (shared with nested literals)
+	r        *Run
+	pkg      *packages.Package
+	owner    *types.Named
+	mutexes  map[*types.Var]bool
+	guarded  map[*types.Var]bool
 	// results per function (entry level 0)
 	accesses map[*ast.FuncDecl][]lockAccess
 	calls    map[*ast.FuncDecl][]lockCallSite
@@ -85,7 +86,8 @@ func newLockAnalysis(r *Run, pkg *packages.Package, owner *types.Named) *lockAna
 	la := &lockAnalysis{r: r, pkg: pkg, owner: owner, mutexes: map[*types.Var]bool{}, guarded: map[*types.Var]bool{},
 		accesses: map[*ast.FuncDecl][]lockAccess{}, calls: map[*ast.FuncDecl][]lockCallSite{}, locks: map[*ast.FuncDecl]bool{},
 		ownReads: map[*types.Func]map[*types.Var]bool{}, declOf: map[*types.Func]*ast.FuncDecl{}, exitHeld: map[*ast.FuncDecl][]token.Pos{},
-		callbackLvl: map[*types.Func]map[int]int{}, paramGuard: map[*types.Func]*paramGuardSummary{}, helperAcc: map[*types.Func][]lockAccess{}}
+		callbackLvl: map[*types.Func]map[int]int{}, paramGuard: map[*types.Func]*paramGuardSummary{}, helperAcc: map[*types.Func][]lockAccess{},
+		litEntry: map[*ast.FuncLit]int{}}
 	st := owner.Underlying().(*types.Struct)
 	for i := 0; i < st.NumFields(); i++ {
 		f := st.Field(i)
@@ -197,7 +199,12 @@ func (la *lockAnalysis) analyseFunc(fd *ast.FuncDecl, entryLvl int) {
 		for i, a := range c.Args {
 			if lit, ok := ast.Unparen(a).(*ast.FuncLit); ok {
 				if lv, ok := la.callbackLevels(callee)[i]; ok {
+					if lv >= 100 {
+						// the helper locks the locker it is handed: &x.mu is the write lock, x.mu.RLocker() the read lock
+						lv = la.lockerArgLevel(c, lv-100)
+					}
 					litEntry[lit] = lv
+					la.litEntry[lit] = lv
 				}
 			}
 		}
@@ -502,7 +509,8 @@ func (la *lockAnalysis) analyseLit(fd *ast.FuncDecl, lit *ast.FuncLit, record fu
 				s.lvl = 0
 			}
 		case *ast.FuncLit:
-			la.analyseLit(fd, x, record, 0)
+			// a literal nested in this one may itself be handed to a locking helper (once.Do(func() { locked(l, func() {…}) }))
+			la.analyseLit(fd, x, record, la.litEntry[x])
 		}
 		return s
 	}
@@ -932,6 +940,25 @@ func (la *lockAnalysis) callbackLevels(f *types.Func) map[int]int {
 	if len(params) == 0 {
 		return out
 	}
+	// a locker handed in as a parameter (l sync.Locker, mu *sync.RWMutex): the level under which the callback
+	// runs is the level of whatever the caller passes — encoded as 100 + index of that parameter
+	lockerParams := map[types.Object]int{}
+	{
+		k := 0
+		for _, fl := range fd.Type.Params.List {
+			t := info.TypeOf(fl.Type)
+			isLocker := isNamed(t, "sync", "Locker") || isNamed(t, "sync", "RWMutex") || isNamed(t, "sync", "Mutex")
+			for _, nm := range fl.Names {
+				if isLocker {
+					lockerParams[info.Defs[nm]] = k
+				}
+				k++
+			}
+			if len(fl.Names) == 0 {
+				k++
+			}
+		}
+	}
 	lvls := map[int]int{}
 	called := map[*ast.Ident]bool{}
 	h := &Hooks{Info: info}
@@ -954,6 +981,18 @@ func (la *lockAnalysis) callbackLevels(f *types.Func) map[int]int {
 				*s = 1
 			case "Unlock", "RUnlock":
 				*s = 0
+			}
+			if se, ok := ast.Unparen(c.Fun).(*ast.SelectorExpr); ok {
+				if id, ok := ast.Unparen(se.X).(*ast.Ident); ok {
+					if li, ok := lockerParams[info.Uses[id]]; ok {
+						switch se.Sel.Name {
+						case "Lock", "RLock":
+							*s = 100 + li
+						case "Unlock", "RUnlock":
+							*s = 0
+						}
+					}
+				}
 			}
 			if id, ok := ast.Unparen(c.Fun).(*ast.Ident); ok {
 				if pi, ok := params[info.Uses[id]]; ok {
@@ -1179,4 +1218,38 @@ func (la *lockAnalysis) paramGuardOf(f *types.Func) *paramGuardSummary {
 	}
 	la.paramGuard[f] = pg
 	return pg
+}
+
+// lockerArgLevel: the level of the locker passed as argument idx of call — &owner.mu (or owner.mu for a
+// pointer field) is the write lock, owner.mu.RLocker() the read lock, anything else no lock of this owner.
+func (la *lockAnalysis) lockerArgLevel(call *ast.CallExpr, idx int) int {
+	if idx >= len(call.Args) {
+		return 0
+	}
+	info := la.pkg.TypesInfo
+	a := ast.Unparen(call.Args[idx])
+	isMutexField := func(e ast.Expr) bool {
+		se, ok := ast.Unparen(e).(*ast.SelectorExpr)
+		if !ok {
+			return false
+		}
+		sel, ok := info.Selections[se]
+		if !ok {
+			return false
+		}
+		v, ok := sel.Obj().(*types.Var)
+		return ok && la.mutexes[v]
+	}
+	if ue, ok := a.(*ast.UnaryExpr); ok && ue.Op == token.AND && isMutexField(ue.X) {
+		return 2
+	}
+	if isMutexField(a) {
+		return 2
+	}
+	if c, ok := a.(*ast.CallExpr); ok && len(c.Args) == 0 {
+		if se, ok := ast.Unparen(c.Fun).(*ast.SelectorExpr); ok && se.Sel.Name == "RLocker" && isMutexField(se.X) {
+			return 1
+		}
+	}
+	return 0
 }
